@@ -271,7 +271,7 @@ where
                         cases: per as u32,
                         failure_persistence: None,
                         max_shrink_iters,
-                        max_shrink_time: 0,
+                        max_shrink_time: 240_000,
                         max_global_rejects: 1 << 30,
                         ..Config::default()
                     };
